@@ -42,6 +42,7 @@ type Op struct {
 	S   string   `json:"s"`
 	Cap int      `json:"cap"`
 	Cs  []string `json:"cs"`
+	P   bool     `json:"p,omitempty"` // opslast mode: record the projection after this statement although it is not the last one
 }
 
 type Res struct {
@@ -115,6 +116,8 @@ func src(o Op) string {
 	switch o.Op {
 	case "lit3":
 		return o.X + " = [0, 1, 2]"
+	case "litmix":
+		return o.X + " = [7, \"s\"]"
 	case "make":
 		return fmt.Sprintf("%s = make([]interface, %d, %d)", o.X, o.I.I, o.J.I)
 	case "tmake":
@@ -533,7 +536,10 @@ func opPool(rng *rand.Rand, w *world) Op {
 		case 6:
 			return Op{Op: "fieldset", X: "su", S: []string{"A", "B"}[rng.Intn(2)], V: []V{intV(5), strV("z")}[rng.Intn(2)]}
 		case 7:
-			return Op{Op: "concat", X: "c", Y: []string{"a", "b"}[rng.Intn(2)], K: strV([]string{"ta", "a", "b"}[rng.Intn(3)])}
+			if rng.Intn(4) == 0 {
+				return Op{Op: "litmix", X: []string{"a", "b"}[rng.Intn(2)]}
+			}
+			return Op{Op: "concat", X: "c", Y: []string{"a", "b", "ta"}[rng.Intn(3)], K: strV([]string{"ta", "a", "b"}[rng.Intn(3)])}
 		case 8:
 			return Op{Op: "bindfield", X: "st", Y: "sv", S: []string{"A", "B"}[rng.Intn(2)]}
 		case 9:
@@ -610,7 +616,7 @@ func main() {
 			w := newWorld()
 			for i, o := range ops {
 				l := w.do(o)
-				if lastOnly && i < len(ops)-1 {
+				if lastOnly && i < len(ops)-1 && !o.P {
 					// every proper prefix of a transition-cover history is a history of its own: only the last step carries the projection
 					l = Line{Ev: "op", O: l.O, Res: l.Res, Share: []Share{}, Src: l.Src, NoPost: true}
 				}
